@@ -213,8 +213,7 @@ def sweeps(tier, rng):
                     diff = [c for c in set(cm) | set(st2.cmap) if cm.get(c) != st2.cmap.get(c)][:3]
                     bad = "cmap format %d changed at %r: %r -> %r" % (fmt, diff, [cm.get(c) for c in diff], [st2.cmap.get(c) for c in diff])
             except Exception as e:
-                empty_known = fmt in (12, 13) and not cm
-                bad = ("F7:" if empty_known else "") + "cmap format %d raised %r (%d entries)" % (fmt, e, len(cm))
+                bad = "cmap format %d raised %r (%d entries)" % (fmt, e, len(cm))     # F7 (empty 12/13 mapping) was fixed in e7ca7cc
                 if fmt in (0, 2, 6) and isinstance(e, (struct.error, KeyError, AssertionError, OverflowError, ValueError, IndexError)) and (len(cm) == 0 or fmt == 2): bad = None
             yield (("cmap", fmt, len(cm)), bad)
     def run_glyf():
@@ -358,7 +357,6 @@ def sweeps(tier, rng):
     return [Sweep("cmap", run_cmap), Sweep("glyf", run_glyf), Sweep("glyf-loca", run_glyf_loca_table), Sweep("gvar", run_gvar), Sweep("name-kern", run_name_kern)]
 
 def classify(sweep, case, failure):
-    if sweep == "cmap" and str(failure).startswith("F7:"): return "F7"
     return None
 
 def witness(fid):
